@@ -223,7 +223,7 @@ type TickerStormPlan struct {
 }
 
 func genTickerStorm(t *rapid.T) TickerStormPlan {
-	return TickerStormPlan{Goroutines: rapid.SampledFrom([]int{4, 8, 16}).Draw(t, "g"), Resets: rapid.IntRange(100, 400).Draw(t, "resets"), Rounds: rapid.IntRange(30, 120).Draw(t, "rounds")}
+	return TickerStormPlan{Goroutines: rapid.SampledFrom([]int{2, 2, 4, 4, 8, 16}).Draw(t, "g"), Resets: rapid.IntRange(100, 400).Draw(t, "resets"), Rounds: rapid.IntRange(30, 120).Draw(t, "rounds")}
 }
 
 func runTickerStorm(p TickerStormPlan) (vk.Outcome, error) {
